@@ -26,7 +26,8 @@ namespace occa {
 
     template <class T>
     static inline bool hasNegativeBitSet(const T &t) {
-      return t & (1 << (sizeof(T) - 1));
+      // Sign bit of [t]: a negative count stored in an unsigned entry
+      return (t >> ((8 * sizeof(T)) - 1)) & 1;
     }
 
     bool isZero() const;
